@@ -230,8 +230,13 @@ func tryCall(w *W, tv tryVariant, b Binding, kind CallKind) Outcome {
 		f.MarkerDNE = true
 		w.Inc("unavailable_marked_by_dne_value")
 	}
+	// a fetcher indexed by key (the documented fast path) relies on being asked with the key the Config registered
+	f.Keys = tv.v.CC.VariableKeyMap
 	o, _ := callExpr(tv.v.E, kind, f, tr, tv.events)
 	w.Evals++
+	if f.KeyError != "" {
+		w.Fail("fetcher-asked-with-wrong-key", "%s\n%s", f.KeyError, describeCase(tv.v.Src, tv.v.Cfg, b))
+	}
 	if tr.Bad != "" {
 		w.Fail("step-monitor/"+stepSig(tr.Bad), "%s\n%s", tr.Bad, describeCase(tv.v.Src, tv.v.Cfg, b))
 	}
